@@ -50,9 +50,10 @@ def _is_sim(path):
 
 
 class SimRaw(io.RawIOBase):
-    def __init__(self, fs, path, gen):
+    def __init__(self, fs, path, gen, append=True):
         super().__init__()
         self.fs, self.path, self.gen = fs, path, gen
+        self.append = append
         self._sim_closed = False
         self.name = path
         self._pos = len(fs.files.get(path, b""))
@@ -238,7 +239,7 @@ class SimFS:
                 self.files[path] = bytearray()
             else:
                 self.files.setdefault(path, bytearray())
-        raw = SimRaw(self, path, self.gen)
+        raw = SimRaw(self, path, self.gen, append=(m == "a"))
         self.open_handles.append(raw)
         if binary:
             if buffering == 0:
@@ -261,13 +262,24 @@ class SimFS:
             raise self._oserror(errno.ENOSPC)
         if fk == "short":
             n = max(1, len(data) // 2)
-            self.files[raw.path] += data[:n]
+            self._put(raw, data[:n])
             return n
         if fk == "crash":
-            self.files[raw.path] += data[:len(data) // 2]
+            self._put(raw, data[:len(data) // 2])
             self._crash()
-        self.files[raw.path] += data
+        self._put(raw, data)
         return len(data)
+
+    def _put(self, raw, data):
+        """O_APPEND handles write at the end; others at their own offset."""
+        buf = self.files.setdefault(raw.path, bytearray())
+        if raw.append:
+            buf += data
+        else:
+            pos = raw._pos
+            if pos > len(buf):
+                buf += b"\0" * (pos - len(buf))
+            buf[pos:pos + len(data)] = data
 
     def raw_close(self, raw):
         if raw.gen != self.gen:
@@ -330,6 +342,10 @@ class SimFS:
             builtins.open, io.open, os.stat = real_open, real_io_open, real_stat
             for n, f in real.items():
                 setattr(os, n, f)
+
+    def user_delete(self, path):
+        """The user removes a file between exports (not a numbered I/O call)."""
+        self.files.pop(path, None)
 
     # ---- operator repair after a crash / failed write --------------------
     def repair(self, path):
